@@ -74,6 +74,9 @@ func genProt(t *rapid.T, o gen.Opts) protIn {
 		o.MaxChain = maxInnerChain
 	}
 	in := protIn{Msg: gen.Message(t, o), Suite: genSuite(t), SendI: rapid.Bool().Draw(t, "sendI"), WithHdr: rapid.Bool().Draw(t, "withhdr")}
+	if rapid.IntRange(0, 9).Draw(t, "semantic") == 9 {
+		in.Msg = gen.Semantic(t) // liveness checks, deletes, error notifications, re-keying requests ...
+	}
 	in.Keys = genKeys(t, in.Suite)
 	switch rapid.IntRange(0, 5).Draw(t, "entropyclass") {
 	case 3:
